@@ -71,6 +71,15 @@ def _nominal_interp(ctx):
     eqv = ctx.syn.fn("Ty::is_functionally_equivalent_to", "hir/src/common/ty.rs")
 
     class NI(SymInterp):
+        def default_method(self, recv, m, args, e):
+            # a list of (key, value) pairs collected into a map
+            if isinstance(recv, list) and recv and all(isinstance(x, tuple) and len(x) == 2 for x in recv):
+                if m == "get" and len(args) == 1:
+                    return next((v for k_, v in recv if k_ == args[0]), None)
+                if m == "contains_key" and len(args) == 1:
+                    return any(k_ == args[0] for k_, v in recv)
+            return super().default_method(recv, m, args, e)
+
         def binop(self, op, l, r, e):
             if op in ("==", "!="):
                 same = None
@@ -82,10 +91,20 @@ def _nominal_interp(ctx):
                     return same == (op == "==")
             return super().binop(op, l, r, e)
 
+    _free = {}
+
+    def free_fn(path):
+        # a relation split into a free helper function of ty.rs is run from its own source
+        last = path.rsplit("::", 1)[-1]
+        if last not in _free:
+            c = [f for f in ctx.syn.fns_in("hir/src/common/ty.rs") if f.body is not None and not f.in_test and f.impl_ty is None and f.qual.rsplit("::", 1)[-1] == last]
+            _free[last] = c[0] if len(c) == 1 else None
+        return _free[last]
+
     def run_fit(a, b, depth=0):
         if depth > 6:
             raise CannotEstablish("recursion depth")
-        it = NI(methods={"can_fit_into": lambda i, r, args: run_fit(r, args[0], depth + 1),
+        it = NI(resolver=free_fn, methods={"can_fit_into": lambda i, r, args: run_fit(r, args[0], depth + 1),
                          "is_functionally_equivalent_to": lambda i, r, args: run_eqv(r, args[0], args[1], depth + 1),
                          "might_be_weak": lambda i, r, args: False, "is_weak_replaceable_by": lambda i, r, args: False,
                          "is_zero_sized": lambda i, r, args: False})
@@ -95,7 +114,7 @@ def _nominal_interp(ctx):
     def run_eqv(a, b, flag, depth=0):
         if depth > 6:
             raise CannotEstablish("recursion depth")
-        it = NI(methods={"is_functionally_equivalent_to": lambda i, r, args: run_eqv(r, args[0], args[1], depth + 1),
+        it = NI(resolver=free_fn, methods={"is_functionally_equivalent_to": lambda i, r, args: run_eqv(r, args[0], args[1], depth + 1),
                          "can_fit_into": lambda i, r, args: run_fit(r, args[0], depth + 1),
                          "zip_eq": lambda i, r, args: list(zip(r, args[0])) if isinstance(r, list) else NotImplemented})
         n = eqv.param_names()
